@@ -3,7 +3,13 @@ ENGINES = [
   "kind_free_text": "deterministic simulation: real scan engine on SimFS (in-memory disk with seeded listing order, chunking, latency on a synctest fake clock, fault plans keyed by k-th occurrence of an operation on a path) + harness plugins + recording collector; rapid generates and shrinks scenarios; replay file = scenario"},
 ]
 NOTES = "Deterministic simulation with fault injection; see DESIGN.md. ./check selftest proves determinism (same scenario, fresh processes, GOMAXPROCS 1/4/16 => identical history fingerprints)."
-PENDING = {k: "claimed in DESIGN.md; check not yet built in this commit" for k in ["C02", "C04", "C05", "C06"]}
+PENDING = {k: "claimed in DESIGN.md; check not yet built in this commit" for k in ["C04", "C05"]}
+ENGINES += [
+ {"name": "world-X", "path": "harness/worlds/extract", "serves_properties": ["C02", "C06"],
+  "kind_free_text": "deterministic simulation: the real built-in extractors (57 of 58) and the real scan engine on SimFS or a sandboxed real directory; stored-data corruption operators on the repository's fixtures, read faults, OS-call faults through the overlay shim, cancellation instants; before/after SHA-256 snapshots of the sandbox"},
+ {"name": "world-I", "path": "harness/worlds/image", "serves_properties": ["C04", "C05", "C06", "C10"],
+  "kind_free_text": "deterministic simulation: layer-history model served as v1.Image/v1.Layer (seeded entry order, naming style, chunking, mid-stream failures) to the real loader, chain-layer FS, unpacker and ScanContainer/tracing; RefOverlay(D) reference model with named deviations; sandbox snapshots"},
+]
 ENGINES += [
  {"name": "world-K", "path": "harness/worlds/cache", "serves_properties": ["C16"],
   "kind_free_text": "deterministic simulation: real RequestCache with build-time inserted yields at lock boundaries, simulated clients and fetch callbacks under a seeded cooperative scheduler inside a synctest bubble; porcupine linearizability + counter invariants"},
@@ -17,6 +23,14 @@ chk("C01", "exploration",
     "seeded exploration: ~50k (quick) / millions (thorough) generated tree x option x predicate scenarios run through the real Scanner.Scan on a simulated disk; the recorded seam history (FileRequired/Open/Extract/Close) is compared with an independent reference walker (exactly-once multiset), inventory = union of returns, statuses, and the sub-directory law on every reachable directory. Sampling, not proof.",
     "trusted: the reference walker (harness/worlds/scan/ref.go) and its gitignore dialect; SimFS faithfully models os.DirFS semantics (Stat/Open follow symlinks, ReadDir entries are lstat-like); go-git matcher and gobwas/glob are dependencies, not under test",
     "deterministic simulation (fault-free configuration) + reference-model refinement over the recorded seam history", "world-S", "DESIGN.md 4/C01")
+chk("C02", "exploration",
+    "seeded fault injection on stored data: every scenario places 3-8 healthy fixtures of different extractors at production paths plus one victim = a repository fixture with 1-4 stacked corruption operators (truncate, bit flip, byte substitution, zero block, duplicated/transposed block, garbage tail, emptied; also inside zip/jar entries, include families, sibling files, zip bombs), seeded chunking and optional read faults; two real scans (healthy baseline vs corrupted): no panic/crash/hang, per-Extract budgets at the seam, scan completes, dispatch and statuses consistent, every (extractor, file) that did not see the victim identical to baseline.",
+    "a fault model (disk rot, truncated writes, failing reads), not a coverage-guided fuzzer: the evidence counts distinct corrupted contents per extractor; os/rpm Timeout and java/archive MaxOpenedBytes are lowered (stated); java/pomxmlnet needs the network and is not covered; known finding X-macapps-plist-unbounded-recursion masks hang keys of os/macapps only",
+    "deterministic simulation with stored-data corruption and read-fault injection; containment oracle against the corruption-free run", "world-X", "DESIGN.md 4/C02")
+chk("C06", "exploration",
+    "(scan) trees with valid/empty/truncated/corrupted fixtures at production paths scanned through a sandboxed real directory (DirectFS) and through SimFS with a virtual root, with read faults and OS-call faults during temporary copies and cancellation instants: SHA-256 snapshot of scan root and working directory unchanged, temp dir empty after Scan returns; (image) hostile entry names / link targets / sequences through FromV1Image, FromTarball, UnpackSquashed(FromTarball) and CleanUp with reader faults and OS-call faults: nothing outside the designated directory created/changed/removed, links left inside resolve inside, temp dir gone after CleanUp or a failed load.",
+    "the sandbox is a real directory tree on the real file system (per worker, per scenario); what lies outside the sandbox is not observed",
+    "deterministic simulation with fault injection; durable-state (sandbox snapshot) oracle", "world-X", "DESIGN.md 4/C06")
 chk("C08", "exploration",
     "seeded schedule exploration: every scenario is executed under the identity order and 5 (quick) / 23 (thorough) seeded schedules (each directory listing permuted independently, extractor/detector lists permuted, both dir-handle flavours), each twice; oracle = equality of result multisets across schedules, independent sortedness comparator, and the multi-root union law against single-root scans.",
     "Go map iteration order inside the library is sampled by repetition, not controlled; failure reasons compared as sets of lines",
@@ -26,7 +40,7 @@ chk("C09", "fault_enumeration",
     "the classification of a delivered fault into its failing object (directory / file / (file,extractor) attempt) is the harness's reading of the statement; inside the failing object nothing is asserted",
     "deterministic simulation with exhaustive single/pair fault enumeration over the sites of the recorded fault-free history", "world-S", "DESIGN.md 4/C09")
 chk("C10", "fault_enumeration",
-    "scan half: per generated scenario, inode limits around the measured visit count, size limits around every file size present, and cancel() delivered at EVERY seam event of the fault-free history (plus pre-cancelled); oracle from the recorded history: counters vs limit, nothing starts after the cancel instant, failure iff work remained. Image byte-limit half runs in world I.",
+    "scan half: per generated scenario, inode limits around the measured visit count, size limits around every file size present, and cancel() delivered at EVERY seam event of the fault-free history (plus pre-cancelled); oracle from the recorded history: counters vs limit, nothing starts after the cancel instant, failure iff work remained. Image half (world I): layer files of size L-1, L, L+1, 2L for MaxFileBytes=L are never exposed at or above the limit in any view nor written beyond it; ScanContainer with MaxFileSize never hands an over-limit file of an older view to an extractor during layer tracing.",
     "'file being handled' at a cancel instant is the most recent AfterInodeVisited path; if only traversal remained either outcome is accepted",
     "deterministic simulation: cancellation-instant enumeration over the recorded history; boundary-value limits", "world-S", "DESIGN.md 4/C10")
 chk("C11", "exploration",
